@@ -164,7 +164,8 @@ package twig
 //@ define wsDone(I) forall j int :: 0 <= j && j < len(t.result) ==> t.result[j].Type == old(t.result[j]).Type && t.result[j].Line == old(t.result[j]).Line && t.result[j].Value == wsR(j, I)
 
 // (C04: nothing but the white space a dash asks for is taken out of the literal text)
-//@ func (*ZeroAllocTokenizer).ApplyWhitespaceControl props: C13 C04
+// (C14: above the size threshold as below it - the tokens that are edited are the ones the parser reads)
+//@ func (*ZeroAllocTokenizer).ApplyWhitespaceControl props: C13 C04 C14
 //@   modifies elems(t.result)
 //@   ghostassign wsd gstore(old(wsd), t, 1)
 //@   loop 1 invariant 0 <= i && i <= len(t.result) && wsDone(i)
@@ -1434,11 +1435,21 @@ package twig
 //@   atcall[C04,C14] (*ZeroAllocTokenizer).AddToken#9 pos >= len(t.source) || tagLoc.Position == 0 - 1
 //@   atcall[C08,C14] (*ZeroAllocTokenizer).AddToken#7 a1 == TOKEN_NAME && fn_isIdentifier_0(tagContent)
 //@   atcall[C08,C14] Intern a0 == tagContent
+// the scan starts on an empty token buffer, whatever the pooled tokenizer held before: the stream the
+// parser reads consists of the tokens of this source and of nothing else (C01, C03: not of the template
+// that was tokenized before on the same pooled object)
+//@ func (*ZeroAllocTokenizer).TokenizeHtmlPreserving props: C01 C03
+//@   loop 1 invariant[C01,C03,C04,C14] posT() == 0 ==> len(t.tokenBuffer) == 0
+//@ func (*ZeroAllocTokenizer).TokenizeOptimized props: C01 C03
+//@   loop 1 invariant[C01,C03,C04,C14] pos == 0 ==> len(t.tokenBuffer) == 0
 //@ func (*ZeroAllocTokenizer).TokenizeHtmlPreserving props: C04 C14
 //@   atcall[C04,C14] (*ZeroAllocTokenizer).AddToken#9 posT() >= len(srcT()) || (len(t.tokenBuffer) >= 1 && t.tokenBuffer[len(t.tokenBuffer) - 1].Type == TOKEN_TEXT && t.tokenBuffer[len(t.tokenBuffer) - 1].Value == substr(srcT(), posT(), len(srcT())))
 //@   atcall[C08,C14] (*ZeroAllocTokenizer).AddToken#7 a1 == TOKEN_NAME && fn_isIdentifier_0(a2)
 // a verbatim block ends at {% endverbatim %} and nowhere else
 //@ func (*Parser).parseVerbatim props: C04
+// what it yields is a verbatim node: the one node kind no later pass reads as anything but text
+// (a text node inside a macro body is searched for print tags by CallMacro)
+//@   ensures[C04] err == nil ==> typeIs(ret0, "*VerbatimNode")
 //@   ensures[C04] err == nil ==> parser.tokenIndex >= 3 && parser.tokens[parser.tokenIndex - 2].Type == TOKEN_NAME && parser.tokens[parser.tokenIndex - 2].Value == "endverbatim" && (parser.tokens[parser.tokenIndex - 3].Type == TOKEN_BLOCK_START || parser.tokens[parser.tokenIndex - 3].Type == TOKEN_BLOCK_START_TRIM)
 // Parse: what is parsed is the token stream one of the two tokenizers produced for this source, and
 // the tree returned is built from what parseOuterTemplate made of it (no path around the tokenizer)
@@ -1620,3 +1631,18 @@ package twig
 //@ typeinv FileSystemLoader props: C05
 //@   invariant x.templatePaths != nil
 //@   flag footprint FileSystemLoader.templatePaths
+
+// ---------------------------------------------------------------- termination (C05: "fails to terminate")
+// Grow multiplies the capacity until it suffices: from a capacity of zero that never ends. Every caller
+// owes a buffer that has storage (the pool's New makes 1 KiB; Get keeps it) or asks for nothing.
+//@ func (*Buffer).Grow props: C05
+//@   requires cap(b.buf) >= 1 || n <= 0
+//@   loop 1 invariant newCap >= 1
+//@   loop 1 decreases needed - newCap
+
+// DebugRender renders the template with a context of its own, built from the variables of the one it
+// is given: the sandbox flag does not travel with it. It is a way into a render (Engine.Render and
+// RenderTo hand it the context they have just made), not a step inside one: the context it is given
+// is not sandboxed (C06: however the sandboxed template reaches a filter or function).
+//@ func DebugRender props: C06
+//@   requires[C06] !ctx.sandboxed
